@@ -11,6 +11,7 @@
  "unwind": 3, "bounded": true, "loop_contracts": false,
  "bound": "queues with offset <= 2 and len <= 2 pointer records; trimming loop and move-to-front loop fully unwound (unwinding assertions on); the postconditions of the seqptrmap_delete contract are asserted by the harness instead of being enforced through DFCC (DFCC instrumentation of this call tree runs out of memory)",
  "native": true,
+ "mem_gb": 40,
  "timeout": 900
 }
 */
